@@ -10,6 +10,7 @@ inductive Op where
   | next (i : Nat)
   | setIndex (n : Nat)     -- hook VerifSetLBIndex: reach the counter wrap without 2^64 calls
   | conc (g k : Nat)       -- g goroutines create k plans each at the same time and take the first host
+  | toggle (g k : Nat)     -- g goroutines walk k plans each while a non-member is added and removed concurrently
 
 def parseOp (s : String) : Option Op :=
   match opArgs s with
@@ -19,6 +20,9 @@ def parseOp (s : String) : Option Op :=
   | ("P", []) => some .newPlan
   | ("N", [i]) => i.toNat?.map .next
   | ("S", [n]) => n.toNat?.map .setIndex
+  | ("T", [g, k, _]) => match g.toNat?, k.toNat? with
+    | some g, some k => some (.toggle g k)
+    | _, _ => none
   | ("C", [g, k]) => match g.toNat?, k.toNat? with
     | some g, some k => some (.conc g k)
     | _, _ => none
@@ -29,6 +33,10 @@ def runModel : LB.LB → Array LB.Plan → List Op → List String → List Stri
   | lb, ps, .ev e :: ops, acc => runModel (LB.onEvent lb e) ps ops acc
   | lb, ps, .newPlan :: ops, acc => let (p, lb') := LB.newPlan lb; runModel lb' (ps.push p) ops acc
   | lb, ps, .setIndex n :: ops, acc => runModel { lb with index := n % LB.U64 } ps ops acc
+  | lb, ps, .toggle g k :: ops, acc =>
+    -- every plan is a snapshot: no host twice, nothing crashes; afterwards the membership is what it was and the
+    -- counter has moved by the number of plans created
+    runModel { lb with index := (lb.index + g * k) % LB.U64 } ps ops ("t:ok" :: acc)
   | lb, ps, .conc g k :: ops, acc =>
     -- each creation is one atomic fetch-and-add: the g*k plans get g*k consecutive offsets, in some order;
     -- which host each plan starts at is then fixed, only who got which is not
@@ -51,6 +59,7 @@ def toSpecOp : Op → Option PlanSpec.Op
   | .next i => some (.next i)
   | .setIndex _ => none
   | .conc _ _ => none
+  | .toggle _ _ => none
 
 def handle (op real : String) : Verdict :=
   match (splitNE op " ").mapM parseOp with
@@ -63,15 +72,16 @@ def handle (op real : String) : Verdict :=
     let sig := s!"ev{nEv}-pl{nPl}-out{outs.length}"
     let specOps := ops.filterMap toSpecOp
     -- the spec's rotation clause does not apply across a forced index jump
-    let usesSet := ops.any fun | .setIndex _ => true | .conc _ _ => true | _ => false
-    let (ok, key, why) := PlanSpec.planOK specOps ((outs.filter fun o => !(o.startsWith "c:")).map fun o => if o = "-" then none else some o)
+    let usesSet := ops.any fun | .setIndex _ => true | .conc _ _ => true | .toggle _ _ => true | _ => false
+    let (ok, key, why) := PlanSpec.planOK specOps ((outs.filter fun o => !(o.startsWith "c:" || o.startsWith "t:")).map fun o => if o = "-" then none else some o)
     -- fairness under concurrent creation: first choices of simultaneously created plans differ by at most one per host
     let unfair := outs.any fun o => o.startsWith "c:" &&
       (let cs := ((o.drop 2).toString.splitOn ",").filterMap fun kv => ((kv.splitOn "=").getD 1 "").toNat?
        match cs.max?, cs.min? with
        | some mx, some mn => mx > mn + 1
        | _, _ => false)
-    if unfair then { kind := "spec", sig, key := "C15:concurrent-rotation", detail := s!"plans created at the same time did not spread evenly over the hosts: {real}" }
+    if outs.contains "t:panic" || outs.contains "t:dup" then { kind := "spec", sig, key := "C15:plan-under-concurrent-membership-change", detail := s!"a plan crashed or repeated a host while membership changed: {real}" }
+    else if unfair then { kind := "spec", sig, key := "C15:concurrent-rotation", detail := s!"plans created at the same time did not spread evenly over the hosts: {real}" }
     else if !ok && !(usesSet && key = "rotation") then { kind := "spec", sig, key, detail := why }
     else if model ≠ outs then { kind := "diff", sig, detail := " ".intercalate model }
     else { kind := "ok", sig }
